@@ -26,6 +26,7 @@ func runC02(c *Ctx) {
 	c.Rule("O2.7", "finish callback fires on both signals, once: onFinish is only ever invoked through onFinishOnce.Do, reached exactly on the !ok edge of Next and on the left==0 edge of Left")
 	c.Rule("O2.9", "the composite reports 'finished' only from its last part: every path of compositeSchedule.Next that returns a part's ok=false (not the recursive retry) proves through the comparisons taken on it that one part was left when that part's Next was called (len(scheds) read in the same critical section, minus startNext shifts, <= 1)")
 	c.Rule("O2.10", "state is published before the started flag: in a schedule whose methods read fields after asking IsStarted(), every function that calls MarkStarted() writes those fields (directly or in the closure it gives to startOnce.Do) before the call - a concurrent Left() that sees 'started' must not see the state of the constructor")
+	c.Rule("O2.11", "start state is read only after the start: a field that is written inside a startOnce.Do closure (the start / finish time) is read in a method only after that method's own startOnce.Do, or on the edge where IsStarted() is true - a drained or empty schedule that was never started must not compute its finish time from the zero start time")
 	c.Rule("O2.8", "doAtSchedule.Left clamps: returns 0 on the n-i < 0 edge and n-i otherwise")
 	P := c.P
 	sp := P.SSAPkg("core/schedule")
@@ -517,6 +518,8 @@ func runC02(c *Ctx) {
 	}
 	// ---------------- O2.10
 	c02PublishBeforeStarted(c, pkgFns)
+	// ---------------- O2.11
+	c02ReadAfterStart(c, "O2.11", pkgFns)
 	// ---------------- O2.7
 	{
 		cbNext := P.Func("core/coreutil", "callbackOnFinishSchedule", "Next")
@@ -1039,4 +1042,103 @@ func c02PublishBeforeStarted(c *Ctx, pkgFns []*ssa.Function) {
 		}
 	}
 	c.Floor("O2.10", "MarkStarted calls in schedules whose readers ask IsStarted()", nMark, 2)
+}
+
+
+// c02ReadAfterStart decides O2.11 (also used by C12 for the startup profile's timing).
+func c02ReadAfterStart(c *Ctx, id string, pkgFns []*ssa.Function) {
+	P := c.P
+	fieldOfAddr := func(v ssa.Value) (*types.Var, string) {
+		fa, ok := v.(*ssa.FieldAddr)
+		if !ok {
+			return nil, ""
+		}
+		st := derefStructOf(fa.X.Type())
+		if st == nil {
+			return nil, ""
+		}
+		_, tn := NamedOf(fa.X.Type())
+		return st.Field(fa.Field), tn
+	}
+	isOnceDoClosure := func(g *ssa.Function) bool {
+		par := g.Parent()
+		if par == nil {
+			return false
+		}
+		found := false
+		EachInstr(par, func(in ssa.Instruction) {
+			if cl, ok := in.(*ssa.Call); ok && MatchCC(&cl.Call, sOnceDo) {
+				if mc, ok := Strip(cl.Call.Args[1]).(*ssa.MakeClosure); ok && mc.Fn == g {
+					found = true
+				}
+			}
+		})
+		return found
+	}
+	// start fields: written inside startOnce.Do closures
+	startFields := map[*types.Var]string{}
+	for _, g := range pkgFns {
+		if !isOnceDoClosure(g) {
+			continue
+		}
+		EachInstr(g, func(in ssa.Instruction) {
+			if st, ok := in.(*ssa.Store); ok {
+				if fv, tn := fieldOfAddr(st.Addr); fv != nil {
+					startFields[fv] = tn
+				}
+			}
+			if cc := CC(in); cc != nil && !cc.IsInvoke() && CalleeObj(cc) != nil && len(cc.Args) > 0 {
+				switch CalleeObj(cc).Name() {
+				case "Store", "Swap":
+					SliceAny(cc.Args[0], func(r ssa.Value) bool {
+						if u, ok := r.(*ssa.UnOp); ok {
+							r = u.X
+						}
+						if fv, tn := fieldOfAddr(r); fv != nil {
+							startFields[fv] = tn
+							return true
+						}
+						return false
+					})
+				}
+			}
+		})
+	}
+	n := 0
+	for _, g := range pkgFns {
+		if g.Signature.Recv() == nil || isOnceDoClosure(g) {
+			continue // constructors and the start closures themselves
+		}
+		var dos []ssa.Instruction
+		EachInstr(g, func(in ssa.Instruction) {
+			if cl, ok := in.(*ssa.Call); ok && MatchCC(&cl.Call, sOnceDo) {
+				dos = append(dos, in)
+			}
+		})
+		EachInstr(g, func(in ssa.Instruction) {
+			fa, ok := in.(*ssa.FieldAddr)
+			if !ok {
+				return
+			}
+			fv, _ := fieldOfAddr(fa)
+			if fv == nil || startFields[fv] == "" {
+				return
+			}
+			n++
+			okAfter := false
+			for _, d := range dos {
+				if InstrDominates(d, in) {
+					okAfter = true
+				}
+			}
+			for _, bf := range BoolFactsAt(in) {
+				if cl, _ := CallOfValue(bf.Subj); cl != nil && bf.Val && CalleeObj(&cl.Call) != nil && CalleeObj(&cl.Call).Name() == "IsStarted" {
+					okAfter = true
+				}
+			}
+			c.Check(okAfter, id, fk(g)+":"+startFields[fv]+"."+fv.Name()+"-read-after-start", in.Pos(),
+				"the "+fv.Name()+" of the schedule is used at "+P.Pos(in.Pos())+" before the schedule is known to be started (neither after this method's startOnce.Do nor under IsStarted())")
+		})
+	}
+	c.Floor(id, "uses of start-time fields outside the start closures", n, 3)
 }
